@@ -28,7 +28,7 @@ class PrangeRacesAllSizes(Contract):
         "glotaran.builtin.megacomplexes.coherent_artifact.coherent_artifact_megacomplex:_calculate_coherent_artifact_matrix",
     )
     strength = "U"
-    trusted = ("numba parallelises only the outermost nb.prange of a parallel=True kernel and gives every iteration its own copies of the scalars first bound inside the body; race-free iterations compute what the sequential loop computes",)
+    trusted = (*__import__('contracts.unbounded', fromlist=['WP_ASSUMPTIONS']).WP_ASSUMPTIONS, "numba parallelises only the outermost nb.prange of a parallel=True kernel and gives every iteration its own copies of the scalars first bound inside the body; race-free iterations compute what the sequential loop computes",)
     drops = ("PyVC-U re-reads the kernels' source; the decorator is read for `parallel=True`, then dropped",)
 
     def cases(self, tier):
